@@ -12,6 +12,61 @@ func init() {
 	vHarnesses["H_C10_flush"] = H_C10_flush
 	vHarnesses["H_C10_compact"] = H_C10_compact
 	vHarnesses["H_C10_flush_race"] = H_C10_flush_race
+	vHarnesses["H_C10_damaged"] = H_C10_damaged
+}
+
+// a segment with a missing, empty or truncated component file is ignored as a whole and its identifier is
+// not reused: two completed flushes (two sessions' worth of ids 1, 2), ANY component file of the newest
+// segment missing / empty / cut in half, reopen, Add + Flush: nothing is overwritten, the new segment takes
+// an id above every id in the directory, the document of the intact segment is found
+func H_C10_damaged() {
+	vStoreTemplates = []int{0, 3}[vChoose("templates", 2)]
+	dir := vTempDir()
+	s, err := OpenPersistentHybridIndex(vFreshStoreCfg(dir, false))
+	vAssert(err == nil, "open-ok")
+	for f := 0; f < 2; f++ {
+		d := vStoreDocs[f]
+		vAssert(s.AddWithID(d.id, []float32{d.vec}, d.text, map[string]interface{}{"c": d.c}) == nil, "add-ok")
+		vAssert(s.Flush() == nil, "flush-ok")
+	}
+	vAssert(s.Close() == nil, "close-ok")
+	kinds := []string{"hybrid", "vector", "text", "metadata"}
+	if vStoreTemplates == 3 {
+		kinds = kinds[:2]
+	}
+	kind := kinds[vChoose("file", len(kinds))]
+	path := dir + "/" + vSegName(kind, 2)
+	vAssert(vFSExists(path), "component-file-written")
+	vTag("file=" + kind)
+	switch vChoose("damage", 3) {
+	case 0:
+		vFSRemove(path)
+		vTag("missing")
+	case 1:
+		vFSTruncate(path, 0)
+		vTag("empty")
+	case 2:
+		vFSTruncate(path, vFSSize(path)/2)
+		vTag("cut-in-half")
+	}
+	s2, err2 := OpenPersistentHybridIndex(vFreshStoreCfg(dir, false))
+	vAssert(err2 == nil, "open-with-a-damaged-segment-ok")
+	if err2 != nil {
+		return
+	}
+	r, e := s2.NewSearch().WithVector([]float32{1}).WithK(10).Execute()
+	vAssert(e == nil, "search-no-error")
+	for _, id := range vIDsOfHybrid(r) {
+		vAssert(id == vStoreDocs[0].id || id == vStoreDocs[1].id, "no-never-added-document")
+	}
+	x := vStoreDocs[3]
+	before := vFSOverwrites()
+	vAssert(s2.AddWithID(x.id, []float32{x.vec}, x.text, map[string]interface{}{"c": x.c}) == nil, "add-after-reopen-ok")
+	vAssert(s2.Flush() == nil, "flush-after-reopen-ok")
+	vAssert(vFSOverwrites() == before, "segment-files-never-overwritten")
+	vAssert(vFSExists(dir+"/"+vSegName("hybrid", 3)), "next-segment-id-is-above-every-id-in-the-directory")
+	s2.Close()
+	vCover("ran")
 }
 
 // an explicit Flush racing with the background flush worker over the same frozen memtable: the process dies
@@ -178,6 +233,15 @@ func H_C10_compact() {
 		vAssert(s.Flush() == nil, "flush-ok")
 		docs = append(docs, d)
 	}
+	if vChoose("restart_before_compaction", 2) == 1 {
+		// the compaction runs in a later session (segment statistics are not persisted)
+		vAssert(s.Close() == nil, "close-ok")
+		cfg2 := vFreshStoreCfg(dir, false)
+		cfg2.CompactionThreshold = 2
+		s, err = OpenPersistentHybridIndex(cfg2)
+		vAssert(err == nil, "open-ok")
+		vTag("restarted")
+	}
 	c := vChoose("crash_at", 60)
 	before0 := vFSOverwrites()
 	vFSCrashAt(vFSOps() + c)
@@ -188,6 +252,27 @@ func H_C10_compact() {
 	vCover("crashed")
 	vTag("compaction")
 	vAssert(vFSOverwrites() == before0, "compaction-never-overwrites-a-segment-file")
+	// an input segment's file may be gone only once the merged segment (id nseg+1) is completely on disk
+	inputGone := false
+	for id := 1; id <= 2; id++ {
+		for _, k := range []string{"hybrid", "vector"} {
+			if !vFSExists(dir + "/" + vSegName(k, id)) {
+				inputGone = true
+			}
+		}
+	}
+	if inputGone {
+		vTag("input-deleted")
+		fl, _ := NewFlatIndex(1, L2Squared)
+		mseg := newSegmentMetadata(uint64(nseg+1), dir+"/"+vSegName("hybrid", nseg+1), dir+"/"+vSegName("vector", nseg+1), dir+"/"+vSegName("text", nseg+1), dir+"/"+vSegName("metadata", nseg+1))
+		mi, merr := mseg.getIndex(fl, nil, nil)
+		vAssert(merr == nil, "inputs-deleted-only-after-the-merged-segment-is-complete")
+		if merr == nil {
+			mr, _ := mi.NewSearch().WithVector([]float32{1}).WithK(10).Execute()
+			mids := vIDsOfHybrid(mr)
+			vAssert(vContains(mids, docs[0].id) && vContains(mids, docs[1].id), "merged-segment-holds-the-input-documents")
+		}
+	}
 	hi := vHighestSegID(dir)
 	vFSRemove(dir + "/LOCK")
 	s2, err2 := OpenPersistentHybridIndex(vFreshStoreCfg(dir, false))
